@@ -124,13 +124,15 @@ Definition enc_pw (p : str) : str := [104; PIPE] ++ enc_body p.
 Definition set_pw (u : C16.Model.user) (p : str) : C16.Model.user :=
   if C16.Model.u_hashed u then C16.Model.set_password (enc_pw p) u else C16.Model.set_password p u.
 
-(* IrcUser.checkPassword; None = the Python None *)
+(* IrcUser.checkPassword; None = the Python None; the commands pass '' for "no password given" *)
 Definition check_pw (a : acct) (p : option str) : res bool :=
   match p with
   | None => Ok false
   | Some p =>
       let u := a_u a in
-      if C16.Model.u_hashed u then
+      (* if not password or not self.password: return False     (repair of C02.F44) *)
+      if negb (nonempty p) || negb (nonempty (C16.Model.u_password u)) then Ok false
+      else if C16.Model.u_hashed u then
         match split_char PIPE (C16.Model.u_password u) with
         | [salt; _] => Ok (seq_eqb (C16.Model.u_password u) (salt ++ [PIPE] ++ enc_body p))
         | _ => Raise ValueError                         (* (salt, _) = self.password.split('|') *)
